@@ -23,7 +23,7 @@ cd /verif
 [ -f evidence/$P.json ] && cp evidence/$P.json .work/evidence_$P.saved.$$
 VERIF_REPO=$W ./check "$P" quick > "$D/check_$P.log" 2>&1; rc=$?
 [ -f .work/evidence_$P.saved.$$ ] && mv .work/evidence_$P.saved.$$ evidence/$P.json
-rm -rf replays/$P
+rm -rf "$D/replays"; mv replays/$P "$D/replays" 2>/dev/null
 git -C /repo worktree remove --force $W
 v=$(grep -E '^VIOLATION' "$D/check_$P.log")
 if [ -z "$v" ] && [ $rc = 0 ]; then echo "RESULT silent"
